@@ -310,6 +310,54 @@ func main() {
 		}
 		atomic.AddInt64(&pts, n)
 	})
+	// fine line scans (step 1e-3) through blended shapes: the polynomial blend is continuous, so a jump of the value
+	// between neighbouring points (a seam where a shortcut switches the blend off) breaks the 1-Lipschitz bound
+	{
+		sp := func(x, y, z, r float64) sdf.SDF3 {
+			s, _ := sdf.Sphere3D(r)
+			return sdf.Transform3D(s, sdf.Translate3d(v3.Vec{X: x, Y: y, Z: z}))
+		}
+		bx3 := func(x, y, z float64) sdf.SDF3 { s, _ := sdf.Box3D(v3.Vec{X: x, Y: y, Z: z}, 0); return s }
+		cy := func(h, r float64) sdf.SDF3 { s, _ := sdf.Cylinder3D(h, r, 0); return s }
+		type bs struct {
+			name string
+			s    sdf.SDF3
+		}
+		var blended []bs
+		for _, k := range []float64{0.4, 0.1} {
+			u1 := sdf.Union3D(sp(0, 0, 0, 1), sdf.Transform3D(bx3(1.2, 1.2, 1.2), sdf.Translate3d(v3.Vec{X: 1})))
+			u1.(*sdf.UnionSDF3).SetMin(sdf.PolyMin(k))
+			u2 := sdf.Union3D(sdf.Transform3D(bx3(1.2, 1.2, 1.2), sdf.Translate3d(v3.Vec{X: 1})), sp(0, 0, 0, 1))
+			u2.(*sdf.UnionSDF3).SetMin(sdf.PolyMin(k))
+			d1 := sdf.Difference3D(bx3(4, 4, 1), sdf.Transform3D(cy(2, 0.8), sdf.Translate3d(v3.Vec{X: 0.3, Z: 0.6})))
+			d1.(*sdf.DifferenceSDF3).SetMax(sdf.PolyMax(k))
+			i1 := sdf.Intersect3D(sp(0, 0, 0, 1), sp(0.9, 0.2, 0, 1))
+			i1.(*sdf.IntersectionSDF3).SetMax(sdf.PolyMax(k))
+			blended = append(blended, bs{fmt.Sprintf("Union3D[PolyMin(%g)](sphere, box)", k), u1}, bs{fmt.Sprintf("Union3D[PolyMin(%g)](box, sphere)", k), u2},
+				bs{fmt.Sprintf("Difference3D[PolyMax(%g)](plate, cylinder pocket)", k), d1}, bs{fmt.Sprintf("Intersect3D[PolyMax(%g)](sphere, sphere)", k), i1})
+		}
+		dirs3 := []v3.Vec{{X: 1}, {Y: 1}, {Z: 1}, {X: 1, Y: 1}, {X: 1, Z: -1}, {X: 1, Y: 2, Z: 3}, {X: -2, Y: 1, Z: 1}}
+		for _, b := range blended {
+			states++
+			found := false
+			for _, d := range dirs3 {
+				d = d.Normalize()
+				for _, o := range []v3.Vec{{}, {X: 0.31, Y: 0.17, Z: 0.23}, {X: -0.4, Y: 0.6, Z: 0.45}, {X: 1.1, Y: -0.3, Z: 0.5}} {
+					prev := b.s.Evaluate(o.Sub(d.MulScalar(2.5)))
+					for i := 1; i <= 5000 && !found; i++ {
+						p := o.Add(d.MulScalar(-2.5 + float64(i)*1e-3))
+						v := b.s.Evaluate(p)
+						pts++
+						if !(math.Abs(v-prev) <= 1e-3*(1+1e-9)+1e-12) {
+							c.Violation("not-1-lipschitz|blended|fine-line-scan", fmt.Sprintf("%s: values %g and %g at two points 1e-3 apart near %v (direction %v)", b.name, prev, v, p, d), map[string]any{"shape": b.name, "point": p, "direction": d})
+							found = true
+						}
+						prev = v
+					}
+				}
+			}
+		}
+	}
 	// unions of exact 2D shapes (the 2D union prunes operands by their boxes): outside all operands the value is
 	// the exact distance to the nearest one, whatever the arrangement (a wide operand beside, above or below a
 	// small one, far apart, nested)
